@@ -1,30 +1,37 @@
 import VaxisModel.Props.C15
+import VaxisModel.Lemmas.VxfwPrefix
 
-/-! F115a: after a focus command and before the next frame, key events are routed along the old
-focus path. Tree: root 0 with children 1 and 2; focus 0 → command `focus 1` → key. The code
-offers the key to widget 1 only; widget 0 (its parent) never sees it in the bubble phase. -/
+/-! F115a (fixed in /repo by acdac0e): before the fix `focusWidget` did not touch `path`, so after
+a focus command and before the next frame key events were routed along the old focus path. Tree:
+root 0 with children 1 and 2; focus 0 → command `focus 1` → key. The pre-fix code offers the key
+to widget 1 only; widget 0 (its parent) never sees it in the bubble phase. The current model
+routes it over the drawn chain `[0, 1]` (`key_routing_drawn_cmd`). -/
 namespace VaxisModel.Witness.F115a
 open VaxisModel.Model.Vxfw VaxisModel.Spec.Routing VaxisModel.Lemmas.Vxfw VaxisModel.Props.C15
+open VaxisModel.Lemmas
 
 def tree : STree := .node 0 10 10 [(0, 0, 0, .node 1 3 3 []), (4, 0, 0, .node 2 3 3 [])]
 def o : Oracle := ⟨fun _ _ _ _ => .nil, fun _ => false⟩
+
+/-- State after the frame and the pre-fix `focus 1` command: path still `[0]`. -/
+def s2old : St := VxfwPrefix.handleCommand o 4 (updatePath o 4 (St.init 0) tree) (.focus 1)
 def s2 : St := handleCommand o 4 (updatePath o 4 (St.init 0) tree) (.focus 1)
 
-theorem observed : (handleEvent o 4 s2 (.key 65)).trace = s2.trace ++ [.call 1 (.key 65) .target] := by decide
+theorem prefix_state : s2old.focused = 1 ∧ s2old.path = [0] := by decide
 
-theorem required : route o.captures (expectedPath 0 tree s2.focused) s2.focused =
-    [(1, .target), (0, .bubble)] := by decide
+theorem prefix_observed :
+    (handleEvent o 4 s2old (.key 65)).trace = s2old.trace ++ [.call 1 (.key 65) .target] := by decide
 
-theorem key_routing_drawn_fails : ¬ key_routing_drawn_full := by
-  intro h
-  obtain ⟨tr, htr, hc⟩ := h o 4 (St.init 0) tree (.focus 1) (.key 65) ⟨by decide, by decide⟩ [0, 1] (by decide)
-  have e : tr = [.call 1 (.key 65) .target] := by
-    have h1 := observed
-    unfold s2 at h1
-    rw [h1] at htr
-    exact (List.append_cancel_left htr).symm
-  subst e
-  revert hc
+theorem required : route o.captures (expectedPath 0 tree 1) 1 = [(1, .target), (0, .bubble)] := by decide
+
+/-- The pre-fix trace does not follow the plan over the drawn chain of the focused widget. -/
+theorem prefix_key_routing_drawn_fails :
+    conforms (.key 65) s2old.focused (planOf o.captures (expectedPath 0 tree s2old.focused) .focusTgt)
+      [.call 1 (.key 65) .target] = false := by decide
+
+/-- Current code: path `[0, 1]`, the parent gets the bubble. -/
+theorem fixed_observed : s2.path = [0, 1] ∧
+    (handleEvent o 4 s2 (.key 65)).trace = s2.trace ++ [.call 1 (.key 65) .target, .call 0 (.key 65) .bubble] := by
   decide
 
 end VaxisModel.Witness.F115a
